@@ -181,6 +181,17 @@ func LogLevel() zerolog.Level {
 	return zerolog.Disabled
 }
 
+// Delay is a duration a harness stub waits for. In the engine (virtual clock) and in the native replay of
+// a counterexample it is d; in the native validation of cover witnesses - which only runs when nothing
+// was violated - it is a hundredth of d, so that a stub standing for a slow source does not make every
+// validated witness wait out real seconds.
+func Delay(d time.Duration) time.Duration {
+	if os.Getenv("VND_BATCH") != "" {
+		return d / 100
+	}
+	return d
+}
+
 func NowNs() int64 { return time.Now().UnixNano() }
 
 // Quiesce lets every other goroutine run until none can progress and returns
